@@ -2,7 +2,7 @@
 
 Code under test: ConstructivePolicy.forward, the bundled encoders / decoders / env embeddings
 (rl4co/models/zoo/*, rl4co/models/nn/env_embeddings/{init,context,dynamic}.py, nn/attention.py,
-nn/graph/attnnet.py, nn/ops.py:Normalization), PointerNetworkPolicy, MDAMPolicy, rl4co.tasks.eval.
+nn/graph/attnnet.py, nn/ops.py:Normalization), PointerNetworkPolicy, MDAMPolicy, MultiStageFFSPPolicy, rl4co.tasks.eval.
 
 Sub-check `batchings` (differential; the B = 1 decode of an instance is the reference):
     an instance set of M rows is decoded greedily, policy in eval() mode,
@@ -12,7 +12,8 @@ Sub-check `batchings` (differential; the B = 1 decode of an instance is the refe
       (d) one drawn instance inserted at a drawn position between unrelated instances of the same shape
     and for every instance every batching must give the B = 1 answer under the argmax-stability rule (DESIGN 2.4):
       * the solo decode is replayed by the reference loop (vf/models/decode.py; reference_ptrnet for the pointer
-        network; a get_log_likelihood spy for MDAM's own multi-path loop) to get per-step top-1/top-2 gaps;
+        network; a get_log_likelihood spy for MDAM's own multi-path loop; vf/models/ffsp_ref.py for
+        MultiStageFFSPPolicy) to get per-step top-1/top-2 gaps;
         a step is decisive if the gap exceeds 1e-4 (float32) / 1e-8 (float64) or only one action is feasible
       * actions equal up to the first non-decisive step (post-finish padding of variable-length rows is stripped:
         the B = 1 decode stops exactly when the row is done, so its length is the row's episode length)
@@ -53,7 +54,9 @@ from ..runner import Sub, h64
 
 PROPERTY = "C14"
 RULE = (
-    "batchings: case = (zoo entry: vf.policies.ZOO + MDAM on tsp/cvrp/op/pctsp, n 4-8, instance set of M 2-8 rows "
+    "batchings: case = (zoo entry: vf.policies.ZOO (incl. am/mdcpdp, am/dpp, am/mdpp on synthetic PDN data) + MDAM on "
+    "tsp/cvrp/op/pctsp + MultiStageFFSPPolicy on FFSPEnv(flatten_stages=False; 3-5 jobs, 1-3 stages, 2-3 machines), "
+    "n 4-8, instance set of M 2-8 rows "
     "(generator-drawn from an instance seed), policy seed 0-3, spread in {1.25,1.5,2,2.5}, normalisation "
     "batch|instance|layer where selectable, env config variant, decode mode greedy | multistart_greedy (k 2-3; "
     "tsp/atsp/cvrp/sdvrp), float32 | float64 slice, a permutation + chunk sizes, mates seed / count / position / "
@@ -81,6 +84,11 @@ ASSUMPTIONS = [
     "multi-start: k <= n forced start nodes 0..k-1 (tsp/atsp) or 1..k (cvrp/sdvrp), deterministic in the library",
     "environment reset/step are per-row (C04's business); every batch is reset from its own instance rows, the way "
     "a data loader would feed it",
+    "MultiStageFFSPPolicy (own loop, summed log-likelihood only, decode type from test_decode_type='greedy'): random "
+    "one-hot init of every stage encoder replaced by DeterministicMatNetInit (asserted); per-step gaps of the B=1 decode "
+    "from vf/models/ffsp_ref.py; it collects step log-probs in a float32 buffer, so the float64 slice / adjudication "
+    "compares its log-likelihood at 1e-6 instead of 1e-9 (instance norm over 2-3 machines / jobs makes float32 "
+    "adjudication frequent: ~10 % of its cases)",
     "MDAM's log-likelihood sums un-normalised clipped logits, so finished rows keep accumulating it while batch-mates "
     "are still decoding (genuine-defect candidate, signature ll_sum|mdam/<env>|greedy|<batching>|padded): that comparison is "
     "counted as excluded unless the signature is an open known finding or VF_C14_DEFECT_SLICES=1",
@@ -92,11 +100,15 @@ DEFECT_SLICES = os.environ.get("VF_C14_DEFECT_SLICES", "0") == "1"
 GATED_DEFECTS = {"ll_sum|mdam/*|padded": "mdam_ll_counts_padding_steps(defect candidate)"}
 
 NO_F64 = ("l2d", "mvmoe", "ptrnet")  # hard-coded float32 tensors inside
+SUMMED_LL = ("ptrnet", "matnet_ffsp")  # own loops that return the summed log-likelihood only
+# MultiStageFFSPPolicy computes in the dtype of its weights but collects the step log-probs in a float32 buffer: the
+# float64 slice / adjudication run sees log-likelihoods rounded to float32 (relative 6e-8) -> 1e-6 instead of 1e-9
+LL_CAST32 = ("matnet_ffsp",)
 NORM_KEYS = ("am", "symnco", "ham")
 MDAM_ENVS = ("tsp", "cvrp", "op", "pctsp")
 MDAM_PATHS = 3
 MULTISTART_ENVS = ("tsp", "atsp", "cvrp", "sdvrp")
-ZOO14 = list(ZOO) + [("mdam", e) for e in MDAM_ENVS]
+ZOO14 = list(ZOO) + [("mdam", e) for e in MDAM_ENVS] + [("matnet_ffsp", "ffsp")]
 BY_DESIGN = [("mvmoe_light", "mtvrp"), ("matnet_random_init", "atsp"), ("am_trainmode_batchnorm", "tsp")]
 ADJ_CAP = 1e-2
 
@@ -156,6 +168,14 @@ def env_cfg(envn, n, variant):
         cfg["capacity"] = [None, None, 10.0, 20.0][v]
     elif envn == "atsp":
         cfg["tmat"] = v != 1
+    elif envn == "mdcpdp":
+        cfg.update([dict(), dict(reward_mode="lateness", problem_mode="open"), dict(depots=3, reward_mode="minsum", dist_mode="L1"),
+                    dict(depots=1, reward_mode="lateness", lw=1.0, max_cap=3)][v])
+    elif envn == "mdpp":
+        cfg["reward_type"] = "meansum" if v == 1 else "minmax"
+    elif envn == "ffsp":
+        # >= 2 machines per stage: the MatNet encoders use instance normalisation over the machine axis
+        cfg.update([dict(), dict(stages=1, mas=2), dict(stages=3, mas=2), dict(stages=2, mas=3)][v])
     return cfg
 
 
@@ -287,6 +307,9 @@ class Runner:
         with torch.no_grad():
             if self.key == "ptrnet":
                 out = self.ctx.guard(self.policy, td.clone(), self.env, phase="test", decode_type="greedy", what=what)
+            elif self.key == "matnet_ffsp":
+                # own loop: decode type from the `<phase>_decode_type` attribute (set to greedy by make_policy)
+                out = self.ctx.guard(self.policy, td.clone(), self.env, phase="test", num_starts=1, what=what)
             elif self.key == "mdam":
                 with mdam_spy(rec_mdam):
                     out = self.ctx.guard(self.policy, td.clone(), self.env, phase="test", decode_type="greedy", what=what)
@@ -319,7 +342,7 @@ class Runner:
                     recs[p].reward.append(rew[p, j].double())
             return recs
         R = B * K
-        per_step = self.key != "ptrnet"
+        per_step = self.key not in SUMMED_LL
         ok = (A.dim() == 2 and A.shape[0] == R and rew.dim() >= 1 and rew.reshape(-1).shape[0] == R and rew.shape[0] == R
               and ll.shape[:1] == (R,) and (tuple(ll.shape) == (R, A.shape[1]) if per_step else ll.dim() == 1))
         ctx.check(ok, sig, f"actions {tuple(A.shape)} ll {tuple(ll.shape)} reward {tuple(rew.shape)} for B={B} "
@@ -353,6 +376,15 @@ class Runner:
             ref = reference_ptrnet(self.policy, td_solo, A)
             self.policy.eval()
             return [A.shape[1]], [ref.gap[0]], [ref.nfeas[0]]
+        if self.key == "matnet_ffsp":
+            from ..models.ffsp_ref import reference_ffsp
+            ref = self.ctx.guard(reference_ffsp, self.policy, self.env, td_solo.select("run_time"), A, num_starts=1,
+                                 what=f"reference_loop|{self.slice}|B=1")
+            T = A.shape[1]
+            self.ctx.check(ref.all_done_at == T and bool(ref.in_mask.all()), f"solo_episode|{self.slice}",
+                           f"B=1 decode returned {T} steps but replaying them finishes after {ref.all_done_at} "
+                           f"(all actions inside the mask: {bool(ref.in_mask.all())})")
+            return [T], [ref.gap[0]], [ref.nfeas[0]]
         ms = self.mode == "multistart_greedy"
         ref = self.ctx.guard(reference_logprobs, self.policy, self.env, td_solo, A, num_starts=self.k if ms else 0,
                              forced_first=ms, what=f"reference_loop|{self.slice}|B=1")
@@ -370,11 +402,13 @@ class Issue:
         self.sig, self.msg, self.detail, self.soft = sig, msg, detail, soft
 
 
-def compare(solo, Ls, gaps, rec, slice_, label, f64, issues, where):
+def compare(solo, Ls, gaps, rec, slice_, label, f64, issues, where, ll_cast32=False):
     """Compare one batching's record of an instance with its B=1 record (argmax-stability rule).
     Returns (rows compared on a fully decisive episode)."""
     thr = 1e-8 if f64 else 1e-4
     atol, rtol = (1e-9, 1e-10) if f64 else (1e-4, 1e-5)
+    if f64 and ll_cast32:
+        atol, rtol = 1e-6, 1e-6
     rrel = 1e-10 if f64 else 1e-5
     cap = 0.0 if f64 else ADJ_CAP
     for r in range(len(Ls)):
@@ -464,6 +498,10 @@ def make_policy(key, envn, env, case, f64):
         logging.disable(logging.NOTSET)
     if key == "matnet":
         assert isinstance(policy.encoder.init_embedding, DeterministicMatNetInit), "deterministic MatNet init missing"
+    if key == "matnet_ffsp":
+        assert all(isinstance(e.init_embedding, DeterministicMatNetInit) for e in policy.encoders), \
+            "deterministic MatNet init missing"
+        policy.test_decode_type = "greedy"
     return policy
 
 
@@ -545,7 +583,7 @@ def _run(case, ctx, adjudication, key, envn, f64, mode, k, slice_):
                     continue
                 Ls, gaps, _ = refs[i]
                 compare(solo[i], Ls, gaps, recs[p], slice_, label, f64, issues,
-                        f"instance {i} at position {p} of batch {idx}")
+                        f"instance {i} at position {p} of batch {idx}", ll_cast32=key in LL_CAST32)
                 seen[i].add(tuple(idx))
                 if any(recs[p].actions[r].shape[0] > Ls[r] for r in range(len(Ls))):
                     padded_rows += 1
